@@ -39,8 +39,33 @@ def _one(args):
     return {"mutant": name, "status": "ok" if good else "FAIL", "benign": benign, "expect": expect, "exit": c.returncode, "fired": rules}
 
 
+def _anchor_files(prop):
+    import json
+    try:
+        for line in open(os.path.join(VERIF, "properties.jsonl")):
+            d = json.loads(line)
+            if d["id"] == prop:
+                return set(d.get("anchors", {}).get("files", []))
+    except OSError:
+        pass
+    return set()
+
+
+def _touched(diff):
+    out = set()
+    for line in open(diff):
+        if line.startswith("+++ b/"):
+            out.add(line[6:].strip())
+    return out
+
+
 def run(prop):
     diffs = sorted(glob.glob(os.path.join(VERIF, "mutants", prop, "*.diff")))
+    # behaviour-preserving refactors (written independently) that touch a file this property is anchored in
+    anchors = _anchor_files(prop)
+    for d in sorted(glob.glob(os.path.join(VERIF, "mutants", "benign", "*.diff"))):
+        if _touched(d) & anchors:
+            diffs.append(d)
     tmp = tempfile.mkdtemp(prefix="verif-selftest-")
     try:
         with ThreadPoolExecutor(max_workers=4) as ex:
